@@ -20,6 +20,7 @@ MAX_SID = 160
 
 LEAF_KEYS = ["x", "x", "q", "up", "down", "left", "right", "tab", "home", "end", "page down", "page up", "enter", "j"]
 NAV_KEYS = ["up", "down", "left", "right", "page up", "page down", "home", "end", "tab", "shift tab"]
+DECOR_UNSEL = ["disable", "disable", "disable_attrmap", "force_unsel", "wwrap_unsel"]
 CHAR_KEYS = ["x", "q", "z", "enter", " ", "j", "k", "h", "l", "f5", "esc"]
 
 
@@ -30,6 +31,7 @@ class Gen:
         self.sid = sid
         self.cid = cid
         self.max_depth = max_depth
+        self.navbias = None
 
     def room(self, n=6) -> bool:
         return self.sid + n < min(self.cap, MAX_SID)
@@ -43,12 +45,37 @@ class Gen:
         if r.random() < 0.45:
             keys = sorted({r.choice(LEAF_KEYS) for _ in range(r.randint(1, 3))})
         node = {"k": "leaf", "mode": mode, "sid": sid, "sel": r.random() < 0.6, "keys": keys, "rows": r.choice([1, 1, 1, 2, 3])}
+        x = r.random()
+        if node["sel"] and x < 0.16:
+            # unselectable only because of what is wrapped around a selectable widget
+            node["wrap"] = r.choice(DECOR_UNSEL)
+            return node
+        if not node["sel"] and x < 0.08:
+            node["wrap"] = r.choice(["force_sel", "wwrap_sel"])
+            return node
         return self._wrap(node)
 
+    def disabled_leaf(self, mode):
+        """a selectable spy made unselectable by its decoration"""
+        n = self.leaf(mode)
+        n["sel"] = True
+        n["wrap"] = self.rng.choice(DECOR_UNSEL)
+        return n
+
     def _wrap(self, node):
-        if self.rng.random() < 0.12:
+        x = self.rng.random()
+        if x < 0.12:
             node["wrap"] = self.rng.choice(["attrmap", "padding"])
+        elif x < 0.15 and node["k"] != "leaf":
+            node["wrap"] = self.rng.choice(["disable", "force_unsel", "force_sel"])
         return node
+
+    def _entry_row_decor(self, ch, mode_of):
+        """now and then put an unselectable-by-decoration leaf on the first / last position (the row a parent enters)"""
+        r = self.rng
+        if len(ch) >= 2 and self.room(2) and r.random() < 0.3:
+            i = r.choice([0, -1])
+            ch[i] = [self.disabled_leaf(mode_of(ch[i])), ch[i][1]]
 
     def _newcid(self):
         c = self.cid
@@ -129,11 +156,13 @@ class Gen:
         ch = [self.pile_item(mode, depth) for _ in range(n)]
         if mode == "box" and ch and not any(o[0] == "weight" for _, o in ch):
             ch.append([self.node("box", depth), ["weight", 1]])
+        self._entry_row_decor(ch, lambda it: "flow" if (mode == "flow" or it[1][0] == "pack") else "box")
         return {"k": "pile", "mode": mode, "cid": self._newcid(), "ch": ch, "focus": self._focus_arg(len(ch))}
 
     def _cols(self, mode, depth):
         n = self._nchildren()
         ch = [self.cols_item(mode, depth) for _ in range(n)]
+        self._entry_row_decor(ch, lambda it: mode)
         return {"k": "cols", "mode": mode, "cid": self._newcid(), "ch": ch, "div": self.rng.choice([0, 1]), "focus": self._focus_arg(n)}
 
     def _grid(self, mode, depth):
@@ -187,12 +216,70 @@ class Gen:
         r = self.rng
         n = r.choice([0, 1, 2, 3, 4, 5, 6, 8])
         ch = [self.list_item(depth) for _ in range(n)]
+        self._entry_row_decor(ch, lambda it: "flow")
         return {"k": "list", "mode": "box", "cid": self._newcid(), "ch": ch, "walker": r.choice(["sflw", "sflw", "slw", "plain"]), "focus": self._focus_arg(n)}
 
     # ---------------------------------------------------------------- roots
+    def _form(self):
+        """directed shape: [selectable, nested group, selectable] in a Pile / ListBox (axis up/down) or Columns
+        (axis left/right); the group's first and/or last child is unselectable only because of its decoration"""
+        r = self.rng
+        outer = r.choice(["pile", "pile", "list", "cols"])
+        inner = "cols" if outer == "cols" else r.choice(["pile", "pile", "pile", "cols", "grid"])
+
+        def sel_leaf(mode):
+            n = self.leaf(mode)
+            n["sel"] = True
+            n.pop("wrap", None)
+            if r.random() < 0.5:
+                n["keys"] = []
+            return n
+
+        def group_children(mode):
+            k = r.randint(2, 4)
+            out = [sel_leaf(mode) if r.random() < 0.75 else self.leaf(mode) for _ in range(k)]
+            ends = r.choice([[0], [-1], [0, -1]])
+            for i in ends:
+                out[i] = self.disabled_leaf(mode)
+            if not any(c["sel"] and c.get("wrap") not in DECOR_UNSEL for c in out):
+                out.insert(1, sel_leaf(mode))
+            return out
+
+        if outer == "cols":
+            mode = "box"
+            g = {"k": "cols", "mode": mode, "cid": self._newcid(), "ch": [[c, ["weight", 1]] for c in group_children(mode)], "div": r.choice([0, 1]), "focus": None}
+            items = [[sel_leaf(mode), ["weight", 1]], [g, ["weight", 3]], [sel_leaf(mode), ["weight", 1]]]
+            return {"k": "cols", "mode": "box", "cid": self._newcid(), "ch": items, "div": 1, "focus": r.choice([None, 0, 2])}
+        kids = group_children("flow")
+        if inner == "pile":
+            g = {"k": "pile", "mode": "flow", "cid": self._newcid(), "ch": [[c, ["pack"]] for c in kids], "focus": r.choice([None, None, len(kids) - 1, 1])}
+        elif inner == "cols":
+            g = {"k": "cols", "mode": "flow", "cid": self._newcid(), "ch": [[c, ["weight", 1]] for c in kids], "div": 1, "focus": None}
+        else:
+            g = {"k": "grid", "mode": "flow", "cid": self._newcid(), "ch": [[c, None] for c in kids], "cw": 4, "hs": 1, "vs": r.choice([0, 1]), "align": "left", "focus": None}
+        if r.random() < 0.2:
+            g["wrap"] = r.choice(["attrmap", "padding"])
+        seq = [sel_leaf("flow"), g, sel_leaf("flow")]
+        if r.random() < 0.4:
+            seq.insert(r.choice([0, 1, 3]), self.leaf("flow"))
+        if outer == "list":
+            return {"k": "list", "mode": "box", "cid": self._newcid(), "ch": [[c, None] for c in seq], "walker": r.choice(["sflw", "slw", "plain"]), "focus": r.choice([None, 0, len(seq) - 1])}
+        ch = [[c, ["pack"]] for c in seq]
+        if r.random() < 0.5:
+            n = {"k": "pile", "mode": "flow", "cid": self._newcid(), "ch": ch, "focus": r.choice([None, 0, len(seq) - 1]), "wrap": "filler"}
+            n["mode"] = "box"
+            return n
+        ch.append([self.leaf("box"), ["weight", 1]])
+        return {"k": "pile", "mode": "box", "cid": self._newcid(), "ch": ch, "focus": r.choice([None, 0, len(seq) - 1])}
+
     def root(self):
         """the root is always sized as a box widget (as MainLoop does)"""
         r = self.rng
+        self.navbias = None
+        if r.random() < 0.15:
+            t = self._form()
+            self.navbias = ["left", "right"] if t["k"] == "cols" else ["up", "down"]
+            return t
         kind = r.choice(["pile", "cols", "frame", "overlay", "list", "flowpile", "flowcols", "grid"])
         d = self.max_depth - 1
         if kind in ("pile", "cols", "frame", "overlay", "list"):
